@@ -444,11 +444,22 @@ func debugf(f string, a ...any) {
 
 var verifDebug = os.Getenv("VERIF_DEBUG") != ""
 
+// VERIF_IGNORE=substr,substr: development aid (never set by registered checks): violations whose
+// signature contains one of the substrings are counted and dropped, so that the search can be
+// continued past a finding that is already understood.
+var verifIgnore = strings.Split(os.Getenv("VERIF_IGNORE"), ",")
+
 func (w *runWorld) violate(prop, class, sig, f string, a ...any) {
 	if prop != w.prop {
 		// the other property's oracle: its check reports it; do not cut this run short
 		w.other[prop+":"+sig]++
 		return
+	}
+	for _, ig := range verifIgnore {
+		if ig != "" && strings.Contains(sig, ig) {
+			w.other["ignored:"+sig]++
+			return
+		}
 	}
 	verifsim.Violate(prop, class, sig, fmt.Sprintf(f, a...)+"\n  config: "+w.cfg.String()+"\n  "+w.v.describe())
 }
